@@ -25,6 +25,24 @@ STRENGTHENED = {
     "C07-m3": "user containers of one kind -> container kinds vary (MappingProxyType over a kept dict, ...), mutated after class creation",
     "C09-m3": "single comparisons -> histories (compare, change what the key returns, compare again), residue check",
     "C15-m1": "identity-only snapshot of vars(cls) -> deep state of counting attrs + retry with a valid decorator compared with a fresh class",
+    "C01-dm2": "twin chains compared equal -> equal-but-distinguishable twin chains, second direct base (side mixin)",
+    "C01-dm3": "converter chains were opaque -> pipe members are converter events of the model (exactly once each, in order)",
+    "C02-dm2": "same as C01-dm3 (pipe members as events; fault at a pipe member cuts the trace there)",
+    "C03-dm1": "values always hashable, repr never observed -> unhashable values/key results, reprs scripted independently of ==, any repr() call is logged",
+    "C03-dm2": "no faults, one comparison per pair -> scripted faults (== raises / key raises, 5 exception types), every pair compared twice, residue in attr's thread-locals checked",
+    "C04-dm1": "no assoc in the histories -> assoc modelled (copy + object.__setattr__ + cache reset), change block over every eq x hash setting",
+    "C04-dm3": "one shared key function object -> own key-function object per chain build, look-alike chains defined first",
+    "C07-dm2": "empty `these` only over an empty body -> `these=[]`/`{}`/OrderedDict() over a body that still declares fields",
+    "C07-dm3": "only the class under test was introspected, first -> introspection-order histories over ancestors and siblings; fields_dict must agree with fields for every class",
+    "C10-dm3": "harness assigned __module__/__qualname__ itself and never used make_class/these= -> classes exec'd from source in a registered module, make_class/these=/frozen front-ends, nested qualnames",
+    "C11-dm1": "repr callables always truthy functions -> callable objects with scripted truthiness (len 0, bool False, raising bool)",
+    "C11-dm2": "no callable swallowed a fault below it -> tolerant callables (catch node in model and spec), theorem C11_caught_fault_no_residue",
+    "C13-dm1": "filters answered real bools -> truthy/falsy non-bool verdicts",
+    "C13-dm2": "leaves were int/str/None -> opaque objects (class objects, catch-all __getattr__, modules, functions) as leaves, identity observed",
+    "C14-dm2": "every attrs base had a generated __init__ and the class always added a field -> bases with init=False / own __init__, fieldless subclasses, distinct hook tokens per class",
+    "C17-dm1": "cached-property __getattr__ script was listed as not covered -> modelled (T1 tables c17GetattrFixed/MergeOrder), theorem C17_getattr_script_hermetic",
+    "C17-dm2": "histories had no refused definitions -> refused twins (three refusal mechanisms) in the history alphabet, theorem C17_later_definitions_keep_entries",
+    "C20-dm3": "assigned values always fresh strings -> assignment modes fresh/same/equal/iadd over mutable values",
     "C16-m3": "catalogue classes never were layout-twins with different callables -> tagged twins, behaviour fingerprints",
 }
 
